@@ -33,6 +33,16 @@ Example C06_nonvacuous :
   rev (results s) = [((0,0,0), Success); ((0,0,1), Error (Some 3)); ((0,1,0), Skipped); ((1,0,0), Skipped)].
 Proof. vm_compute. auto. Qed.
 
+(* a child killed by a signal (code >= 256 in the model: no exit code at all) is never a success: it is recorded as an
+   error without a code, the run fails and everything later is skipped - by C06_holds' first clause, since Error None is bad *)
+Example C06_signal_death :
+  let P := [[[Defined]; [Defined]]] in
+  let s := run P false (fun t => match t with (0, 0, 0) => 256 + 9 | _ => 0 end)
+     (repeat SchedStep 2 ++ [ChildExit (0,0,0); Reap (0,0,0)] ++ repeat SchedStep 5) in
+  failed s = true /\ exit_status s = 1 /\ ph s = Finished /\
+  rev (results s) = [((0,0,0), Error None); ((0,1,0), Skipped)].
+Proof. vm_compute. auto. Qed.
+
 (* "never an internal error under every timing of its internal tasks": the log compressor's shutdown protocol.
    T threads, n registered clients (client r talks to thread r mod T), every client sends its data and then one
    Shutdown; for EVERY interleaving of sends and receives no send ever finds its channel closed - which is what
